@@ -156,11 +156,12 @@ func corpus() []History {
 // ---------------------------------------------------------------- oracle
 
 type stepObs struct {
-	Err     string
-	Reload  bool
-	Written []string
-	Disk    cfgsm.Disk
-	Ops     []cfgsm.Op
+	LastFailed bool
+	Err        string
+	Reload     bool
+	Written    []string
+	Disk       cfgsm.Disk
+	Ops        []cfgsm.Op
 }
 
 // oracle checks the property directly on what was written, without any model:
@@ -292,7 +293,7 @@ func runHistory(base string, h History, withFresh bool) runResult {
 		e.Stamp()
 		err := e.Update()
 		unblock()
-		o := stepObs{Ops: ops, Written: e.Written(), Disk: e.ReadDisk(), Reload: e.Queue.Adds > q}
+		o := stepObs{Ops: ops, Written: e.Written(), Disk: e.ReadDisk(), Reload: e.Queue.Adds > q, LastFailed: e.LastFailed()}
 		if err != nil {
 			o.Err = err.Error()
 		}
